@@ -338,8 +338,10 @@ def finish(run, level, rule, assumptions, exhaustive=False, extra=None):
         cov.update(extra)
     ev = dict(property_id=prop, tier=run.tier, seed=run.seed, level=level, coverage=cov, assumptions=assumptions,
               wall_s=round(time.time() - run.t0, 1), violations=violations, notes=run.notes)
-    os.makedirs(os.path.join(VERIF, "evidence"), exist_ok=True)
-    with open(os.path.join(VERIF, "evidence", prop + ".json"), "w") as f:
+    # (checks beyond the listed properties - X.. - keep their evidence apart from the interface directory)
+    evdir = os.path.join(VERIF, "out", "extras") if prop.upper().startswith("X") else os.path.join(VERIF, "evidence")
+    os.makedirs(evdir, exist_ok=True)
+    with open(os.path.join(evdir, prop + ".json"), "w") as f:
         json.dump(ev, f, indent=1)
     log("%s %s tier=%s seed=%d: states=%d transitions=%d traces=%d events=%d violations=%d known=%d wall=%.0fs" % (
         "FAIL" if violations else "PASS", prop, run.tier, run.seed, run.mc_states, run.mc_transitions, run.traces,
